@@ -92,6 +92,13 @@ def gen_case(rng, params, idx):
         if any(p.get("opt") for p in pos) and kind in ("next", "fnext"):
             kind = "leaf"
         methods.append({"mid": i, "pos": pos, "kw": kws, "prio": rng.choice([0, 0, 1]), "kind": kind})
+    if rng.random() < 0.2 and npos >= 1:
+        # two Literal methods on one parameter whose values are equal across types (1 / True / 1.0, 0 / False)
+        a, b = rng.sample([["L", 1], ["L", True], ["L", 1.0], ["L", 0], ["L", False], ["L", 1, 2], ["L", True, 2]], 2)
+        j = rng.randrange(npos)
+        for t in (a, b):
+            pos = [{"n": f"a{i}", "t": (t if i == j else "object")} for i in range(npos)]
+            methods.append({"mid": len(methods), "pos": pos, "kw": [], "prio": rng.choice([0, 0, 1]), "kind": "leaf"})
     gen.strict_first(rng, methods, 0.15)
     spec = {"hier": hier, "methods": methods, "npos": npos}
     vals = gen.values_for(hier, builtin=False) + gen.WIDE_VALUES
